@@ -151,6 +151,8 @@ def sh_apply(sh, spec, op):
         return
     if kind == "secload":
         kind, op = "set", ("set", op[1], op[2], op[3])
+    if kind == "incload":
+        kind, op = "load", ("load", op[1], op[2])
     if kind in ("set", "reset", "load") and isinstance(tgt, CfgS) and sp and sp[0] == "sub":
         fields = dict(sp[2])
         if kind == "set":
@@ -194,9 +196,10 @@ def rand_tree(rng, depth=0):
 
 # leaf hints: which built-in field class stands behind an FAny of the model (the model stores the value as given,
 # so every hint only ever receives values its class stores unchanged)
-NONE_ONLY = ("challenge", "bytes", "filename", "float")      # option-carrying classes, value stays None
+NONE_ONLY = ("challenge", "bytes", "filename", "float", "include-none", "include-dir")   # option-carrying classes, value stays None
 LEAF_HINTS = ["int", "str", "int", "bare", "intb", "strn", "secure-best", "secure-xor", "secure-aes", "port", "bool", "url",
-              "challenge", "bytes", "filename", "float"]
+              "challenge", "bytes", "filename", "float", "include-none", "include-dir"]
+_CASE_DIR = [None]        # per-case temp dir (include files, startdir of include-dir fields); set and removed by impl()
 
 
 def leaf_value(rng, hint):
@@ -341,6 +344,10 @@ def gen_op(rng, spec, sh):
             bad = bad_op(rng, path, sp)
             if bad is not None:
                 return bad
+        if path == [] and rng.random() < 0.15:
+            inc = gen_incload(rng, spec)
+            if inc is not None:
+                return inc
         if r < 0.45:
             n = rng.choice(names)
             return ("set", path, n, gen_value(rng, fields[n]))
@@ -367,6 +374,88 @@ def gen_op(rng, spec, sh):
             return ("append", path, gen_value(rng, sp))
         return ("setitem", path, rng.randint(0, n if rng.random() < 0.1 else n - 1), gen_value(rng, sp))
     return ("dset", path, rng.choice(KEYS), gen_value(rng, sp))
+
+
+def include_sites(spec, pre=()):
+    """(path of sub-schema keys, field name, hint) of every IncludeField that Config.loads processes: root and plain nested schemas"""
+    out = []
+    for n, f in spec[2]:
+        if f[0] == "any" and f[2].startswith("include"):
+            out.append((list(pre), n, f[2]))
+        elif f[0] == "sub" and f[3] == "schema":
+            out += include_sites(f, pre + (n,))
+    return out
+
+
+def detuple(t):
+    if isinstance(t, (list, tuple)):
+        return [detuple(x) for x in t]
+    if isinstance(t, dict):
+        return {k: detuple(x) for k, x in t.items()}
+    return t
+
+
+def strip_inc(tree, spec):
+    """the tree without the keys of include fields (at every sub-schema level)"""
+    if not isinstance(tree, dict) or spec is None or spec[0] != "sub":
+        return tree
+    fields = dict(spec[2])
+    out = {}
+    for k, v in tree.items():
+        f = fields.get(k)
+        if f is not None and f[0] == "any" and f[2].startswith("include"):
+            continue
+        out[k] = strip_inc(v, f) if f is not None and f[0] == "sub" and f[3] == "schema" else v
+    return out
+
+
+def spec_include(spec, doc, incs, pre=()):
+    """what Config.loads makes of `doc` when the include field at each site names a file holding the site's tree:
+    includes of one level in field order (the included tree wins, maps merge), then the sub-schemas -- written from
+    the documentation, with the independent deep merge of s_merge.py"""
+    from s_merge import spec_merge
+    tree = dict(doc)
+    for n, f in spec[2]:
+        if f[0] == "any" and f[2].startswith("include"):
+            for sp_, name, _h, child in incs:
+                if tuple(sp_) == tuple(pre) and name == n:
+                    tree = spec_merge(tree, child)
+    for n, f in spec[2]:
+        if f[0] == "sub" and f[3] == "schema" and isinstance(tree.get(n), dict):
+            tree[n] = spec_include(f, tree[n], incs, pre + (n,))
+    return tree
+
+
+def gen_incload(rng, spec):
+    sites = include_sites(spec)
+    if not sites:
+        return None
+    chosen = rng.sample(sites, min(len(sites), rng.choice([1, 1, 2])))
+    doc = strip_inc(detuple(gen_value(rng, spec)), spec)
+    incs = []
+    for sp_, name, hint in chosen:
+        sub = spec
+        node = doc
+        ok = True
+        for k in sp_:
+            sub = dict(sub[2])[k]
+            if not isinstance(node.get(k), dict):
+                node[k] = {}
+            node = node[k]
+        child = strip_inc(detuple(gen_value(rng, sub)), sub)
+        incs.append((sp_, name, hint, child))
+    # the document names the file under the include key; only the position of the key matters for the expectation
+    marked = copy.deepcopy(doc)
+    merged = strip_inc(spec_include(spec, marked, incs), spec)
+    return ("incload", [], merged, rng.choice(["a", "b"]), rng.choice(["rel", "rel", "abs"]), doc, incs)
+
+
+def inc_schema():
+    sub = ("sub", False, [("inc", ("any", None, "include-none")), ("x", ("any", ("tree", 1), "int")),
+                          ("u", ("list", None, ("tree", [1])))], "schema", 2)
+    fields = [("inc", ("any", None, "include-none")), ("inc2", ("any", None, "include-dir")), ("n", ("any", ("tree", 3), "int")),
+              ("l", ("list", ("any", None, "int"), ("tree", [1]))), ("d", ("dict", None, ("tree", {"k": 1}))), ("sub", sub)]
+    return ("sub", False, fields, "schema", 0)
 
 
 def bad_values(f):
@@ -579,6 +668,30 @@ def generate(rng, tier):
         cases.append({"schema": ms, "kind": "matrix", "events": [
             ("build",), ("build",), ("op", 0, ("set", [], "x1", [1, {"a": [2]}])), ("read", 0, rk), ("read", 1, rk),
             ("op", 0, ("set", [("a", "cts"), ("i", 0)], "x2", 5)), ("read", 0, rk), ("build",)]})
+    # document loads with includes: configuration 0 from directory a, configuration 1 from directory b (same file names,
+    # other contents), relative and absolute names, root and nested include fields, startdir None and set
+    ins = inc_schema()
+
+    def incl(dirname, mode, doc, incs):
+        doc = copy.deepcopy(doc)
+        for sp_, _n, _h, _c in incs:          # the document holds a map wherever an include key is going to be written
+            node = doc
+            for k in sp_:
+                node = node.setdefault(k, {})
+        return ("incload", [], strip_inc(spec_include(ins, copy.deepcopy(doc), incs), ins), dirname, mode, doc, incs)
+    for mode in ("rel", "abs"):
+        for site in (([], "inc", "include-none"), ([], "inc2", "include-dir"), (["sub"], "inc", "include-none")):
+            ca = {"x": 5, "u": [7]} if site[0] else {"n": 5, "l": [7], "d": {"q": 1}, "sub": {"x": 6}}
+            cb = {"x": 8} if site[0] else {"n": 8, "l": [9, 9], "sub": {"u": [2]}}
+            ia = [(site[0], site[1], site[2], ca)]
+            ib = [(site[0], site[1], site[2], cb)]
+            da = {"n": 1, "sub": {"x": 2}}
+            cases.append({"schema": ins, "kind": "matrix", "events": [
+                ("build",), ("build",), ("op", 0, incl("a", mode, da, ia)), ("op", 1, incl("b", mode, {"d": {"z": 2}, "sub": {}}, ib)),
+                ("op", 0, incl("b", mode, {}, ib)), ("read", 1, "to_tree"), ("build",)]})
+    both = [([], "inc", "include-none", {"n": 4, "sub": {"x": 4}}), (["sub"], "inc", "include-none", {"x": 9, "u": [3]})]
+    cases.append({"schema": ins, "kind": "matrix", "events": [("build",), ("build",), ("op", 1, incl("a", "rel", {"n": 2, "sub": {"u": [0]}}, both)),
+                                                            ("op", 0, incl("b", "rel", {"l": [5]}, both[:1])), ("build",)]})
     # rejected operations: the error names a sub-schema key (root, nested, list item, config type), a list / dict field
     # or an undeclared key; raising AND rendering it must leave the schema alone
     es = err_schema()
@@ -649,6 +762,7 @@ def generate(rng, tier):
         cloney = it_ >= nrand                # histories around clones, on a schema of the copied kinds
         spec = clone_schema() if cloney else gen_schema(rng)
         shadows = [default_shadow(spec)]
+        has_inc = bool(include_sites(spec))
         events = [("build",)]
         if rng.random() < 0.6:
             events.append(("build",))
@@ -660,6 +774,11 @@ def generate(rng, tier):
                 continue
             i = 0 if rng.random() < 0.85 else rng.randrange(len(shadows))
             r = rng.random()
+            if has_inc and rng.random() < 0.2:
+                o = gen_incload(rng, spec)
+                sh_apply(shadows[i], spec, o)
+                events.append(("op", i, o))
+                continue
             if r < 0.12:
                 events.append(("read", rng.randrange(len(shadows)), rng.choice(READS)))
                 continue
@@ -743,6 +862,8 @@ def g_op(o):
         return "(OpLoad %s %s)" % (g_path(o[1]), g_tree(o[2]))
     if k == "secload":
         return "(OpLoad %s %s)" % (g_path(o[1]), g_tree({o[2]: o[3]}))
+    if k == "incload":
+        return "(OpLoad %s %s)" % (g_path(o[1]), g_tree(o[2]))
     if k == "reset":
         return "(OpReset %s %s)" % (g_path(o[1]), g_str(o[2]))
     if k == "append":
@@ -779,6 +900,48 @@ def gcase(c):
 # ---------------------------------------------------------------------------------------------
 # the implementation
 # ---------------------------------------------------------------------------------------------
+def _inc_dir():
+    import os
+    if _CASE_DIR[0] is None:
+        raise Broken("include field outside a case")
+    d = os.path.join(_CASE_DIR[0], "inc")
+    os.makedirs(d, exist_ok=True)
+    return d
+
+
+def _incload(cfg, o):
+    """cfg.loads(<json document naming include files>) from directory o[3]; afterwards the include keys are reset so that
+    no directory name stays in the configuration"""
+    import json
+    import os
+    import cincoconfig as cc
+    _, _path, _merged, dirname, mode, doc, incs = o
+    d = os.path.join(_CASE_DIR[0], dirname)
+    os.makedirs(d, exist_ok=True)
+    doc = copy.deepcopy(doc)
+    for idx, (sp_, name, hint, child) in enumerate(incs):
+        fname = "c%d.json" % idx
+        where = _inc_dir() if (hint == "include-dir" and mode == "rel") else d
+        full = os.path.join(where, fname)
+        with open(full, "w") as fp:
+            json.dump(child, fp)
+        node = doc
+        for k in sp_:
+            node = node.setdefault(k, {})
+        node[name] = fname if mode == "rel" else full
+    old = os.getcwd()
+    os.chdir(d)
+    try:
+        cfg.loads(json.dumps(doc), "json")
+    finally:
+        os.chdir(old)
+        for sp_, name, _h, _c in incs:
+            sub = cfg
+            for k in sp_:
+                sub = getattr(sub, k)
+            cc.reset_value(sub, name)
+
+
 def _mk(spec, cache):
     """schema text -> real field object (Schema / ConfigType class / Field)"""
     import cincoconfig as cc
@@ -808,6 +971,8 @@ def _mk(spec, cache):
               "secure-aes": lambda **kw: cc.SecureField(method="aes", **kw),
               "port": cc.PortField, "bool": cc.BoolField, "url": cc.UrlField,
               "challenge": lambda **kw: cc.ChallengeField("sha256", **kw), "bytes": lambda **kw: cc.BytesField("hex", **kw),
+              "include-none": lambda **kw: cc.IncludeField(**kw),
+              "include-dir": lambda **kw: cc.IncludeField(startdir=_inc_dir(), **kw),
               "filename": lambda **kw: cc.FilenameField(exists=False, **kw), "float": lambda **kw: cc.FloatField(min=0.5, max=2.5, **kw)}[h]
         return mk(default=dv(spec[1]))
     if k == "list":
@@ -1022,6 +1187,9 @@ def _apply(cfg, o):
         o = (o[0][3:],) + tuple(o[1:])
     k = o[0]
     tgt = _nav(cfg, o[1])
+    if k == "incload":
+        _incload(tgt, o)
+        return
     if k == "secload":
         import base64
         if not isinstance(tgt, Config):
@@ -1175,6 +1343,30 @@ def _cross(cfgs, e):
 
 
 def impl(c):
+    import os
+    import shutil
+    import tempfile
+    old = os.getcwd()
+    _CASE_DIR[0] = tempfile.mkdtemp(prefix="verif_alias_") if include_sites_any(c["schema"]) else None
+    try:
+        return _impl(c)
+    finally:
+        os.chdir(old)
+        if _CASE_DIR[0] is not None:
+            shutil.rmtree(_CASE_DIR[0], ignore_errors=True)
+        _CASE_DIR[0] = None
+
+
+def include_sites_any(spec):
+    k = spec[0]
+    if k == "sub":
+        return any(include_sites_any(f) for _, f in spec[2])
+    if k == "any":
+        return spec[2].startswith("include")
+    return spec[1] is not None and include_sites_any(spec[1])
+
+
+def _impl(c):
     import cincoconfig as cc
     viol = []
     stats = {"ok": 0, "err": 0}
